@@ -786,12 +786,11 @@ CONDS = [
          shard_timeout={"quick": 1500, "thorough": 6000}),
     Cond("C17", c17_inter_eps,
          lambda tier: product_pins(fam=[4], m=[2], ng=[8], grp=list(range(8)), optim=[0], perm=[0],
-                                   shape=[0, 3] if tier == "quick" else [0, 1, 2, 3, 4]) +
-         ([] if tier == "quick" else product_pins(fam=[4], m=[2], ng=[8], grp=list(range(8)), optim=[7], perm=[1], shape=[0, 3])),
+                                   shape=[0, 3] if tier == "quick" else [0, 2, 3]),
          {"quick": "all 210 pairs of rules over {S,A} x {f} x {a, epsilon} x 2 automata WITH epsilon moves (a then a "
                    "trailing epsilon move; a+ through an epsilon back edge), given as EpsilonNFA: "
                    "intersection(..).is_empty() and bool() against the O-IG product",
-          "thorough": "5 automata (also a a*, a leading epsilon move, the empty word only); optim 7 with the reversed rule order"},
+          "thorough": "also the automaton of a a*"},
          FUNCS_INTER, "non-trivial grammar", stubs=[], assumptions=ASSUME, per_path_timeout=600.0,
          shard_timeout={"quick": 1500, "thorough": 6000}),
     Cond("C17", c17_dup, lambda tier: product_pins(c2=[0, 1, 2, 3], dd=[0, 1, 2, 3, 4],
